@@ -79,6 +79,29 @@ class Q:
     def __hash__(s):
         return hash((s.re, s.im))
 
+    # ordering: real numbers only
+    def _r(s, o):
+        o = Q.c(o)
+        if s.im or o.im:
+            raise TypeError('ordering of non-real numbers')
+        return s.re, o.re
+
+    def __lt__(s, o):
+        a, b = s._r(o)
+        return a < b
+
+    def __le__(s, o):
+        a, b = s._r(o)
+        return a <= b
+
+    def __gt__(s, o):
+        a, b = s._r(o)
+        return a > b
+
+    def __ge__(s, o):
+        a, b = s._r(o)
+        return a >= b
+
     def __bool__(s):
         return bool(s.re) or bool(s.im)
 
